@@ -138,7 +138,9 @@ def gen_case(rng):
         if gap is not None and gap[0] == net["targets"][-1]["id"] and gap[1] <= j:
             j = gap[1] - 1
         late = [net["targets"][-1]["id"], j]
-    return {"kind": "c19", "late": late, "net": net, "steps": steps, "edit": edit_kind, "imported": imported, "extra_agents": extra, "gap": gap,
+    # the consumer may partition the agents over two tasking engines: stored observations then cross the partition
+    split = len(net["sensors"]) >= 2 and len(net["targets"]) >= 2 and rng.random() < 0.4
+    return {"kind": "c19", "split_engines": split, "late": late, "net": net, "steps": steps, "edit": edit_kind, "imported": imported, "extra_agents": extra, "gap": gap,
             "imported_obs": (imp_obs := rng.random() < 0.6), "dup_obs": imp_obs and rng.random() < 0.35, "edit_seed": rng.randrange(1 << 30)}
 
 
@@ -177,6 +179,13 @@ def eval_case(ctx, case):
         tl = cfg["engines"][0]["targets"]
         late_cfg = next(t for t in tl if t["id"] == late[0])
         cfg["engines"][0]["targets"] = [t for t in tl if t["id"] != late[0]]
+    if case.get("split_engines") and len(cfg["engines"][0]["sensors"]) >= 2 and len(cfg["engines"][0]["targets"]) >= 2:
+        e1 = cfg["engines"][0]
+        e2 = json.loads(json.dumps(e1))
+        e2["unique_id"] = 2
+        e1["sensors"], e2["sensors"] = e1["sensors"][:1], e2["sensors"][1:]
+        e1["targets"], e2["targets"] = e1["targets"][1:], e2["targets"][:1]  # sensor 0 now shares an engine with every target but the first
+        cfg["engines"].append(e2)
     start = datetime.fromisoformat(net["start"])
     cfg["time"]["stop_timestamp"] = sk.iso(start + timedelta(seconds=(steps + 1) * net["step"]))
     cfg["propagation"]["target_realtime_propagation"] = case["imported"] not in ("targets", "both")
@@ -292,7 +301,7 @@ def eval_case(ctx, case):
                 if want:
                     ctx.check(all(w in have for w in want), "imported-observation-lost", f"step {k}: {len(want)} imported observation(s) of target {t['id']} at {ts}, {len(have)} reached its filter update", wit, mon="imported_obs_reach_filter")
     # ---- every observation handed to a filter carries the stated noise of the sensor that made it --------
-    want_r = {sc["id"]: np.array(sc["sensor"]["covariance"], dtype=float) for sc in cfg["engines"][0]["sensors"]}
+    want_r = {sc["id"]: np.array(sc["sensor"]["covariance"], dtype=float) for e in cfg["engines"] for sc in e["sensors"]}
     for sid, r in meta:
         ok = r is not None and sid in want_r and r.shape == want_r[sid].shape and np.allclose(r, want_r[sid], rtol=1e-12, atol=0.0)
         ctx.check(ok, "observation-metadata-of-another-sensor" if r is not None else "observation-without-metadata",
